@@ -7,6 +7,7 @@ CONSTANTS
   MaxList = 2
   GenMode = FALSE
   Wide = FALSE
+  DEV_StoreBeforeValidate = FALSE
   DEV_SortedIdLists = FALSE
   DEV_SpellingInEq = FALSE
 INVARIANT LawValid
@@ -17,6 +18,7 @@ INVARIANT LawReprint
 INVARIANT LawRoundTripEqual
 INVARIANT LawSetPrint
 INVARIANT LawReparse
+INVARIANT LawRejectAtomic
 INVARIANT LawSolGrammar
 INVARIANT LawSolParse
 INVARIANT LawSolReprint
